@@ -511,6 +511,14 @@ def run_shard(spec, tier, seed):
         for s in P.sources[:2]:
             res.sample({"probe_source": s, "part": spec["part"]})
         res.sets["shard_walls"] = {f"{spec.get('part')}:{'_'.join(spec.get('system', []))}:{spec.get('mom', '')}={time.time() - t0:.0f}s"}
+        for tname, names in methods.items():
+            for nm in names:
+                res.add_to("inv", f"method:{tname}:{nm}")
+        for tname, names in attrs.items():
+            for nm in names:
+                res.add_to("inv", f"attr:{tname}:{nm}")
+        for nm in funcs:
+            res.add_to("inv", f"func:{nm}")
         res.add_to("inventory", f"methods={sum(len(v) for v in methods.values())} attributes={sum(len(v) for v in attrs.values())} functions={len(funcs)}")
     finally:
         shutil.rmtree(cache, ignore_errors=True)
@@ -518,7 +526,20 @@ def run_shard(spec, tier, seed):
 
 
 def finalize(total, tier, seed):
+    import json
+
     probes = {c.split("|")[0] for c in total.cells}
+    invfile = os.path.join(os.path.dirname(os.path.dirname(os.path.abspath(__file__))), "numba_inventory.json")
+    observed = total.sets.get("inv", set())
+    if os.path.exists(invfile) and observed:
+        with open(invfile) as f:
+            pinned = set(json.load(f))
+        gone = sorted(pinned - observed)
+        if gone:
+            # a name the pinned tree supports under numba is no longer registered: compiled programs that the
+            # interpreter still runs would stop compiling
+            total.violation("C07/previously-supported-name-no-longer-registered", {"names": gone[:20]})
+            total.counters["viol:C07/previously-supported-name-no-longer-registered"] = len(gone)
     for p in ("attributes", "conversions", "scalar-argument-methods", "chains", "operators", "binary-same-dimension", "binary-4D-with-3D",
               "vector.obj", "awkward-loop"):
         if p not in probes:
